@@ -66,6 +66,7 @@ type Program struct {
 	returnCovers     bool
 	returnCoverStats map[string]interface{}
 	twinStats        map[string]interface{}
+	probeSelftest    map[string]interface{}
 	conformanceNote  string
 	quickAudits      []map[string]interface{}
 	groundDone       bool
